@@ -12,6 +12,7 @@ import (
 	"strings"
 
 	"github.com/tobgu/qframe"
+	"github.com/tobgu/qframe/config/newqf"
 	"pgregory.net/rapid"
 
 	"verifsim/sim/gen"
@@ -237,7 +238,7 @@ func NewWorld(t *rapid.T, b Bounds) *World {
 		if i == 0 && b.HugeOdds > 0 && gen.Rare(t, "hugebase", b.HugeOdds) {
 			// beyond size thresholds of a thousand rows (caches and fast
 			// paths that only switch on for "large" frames)
-			fb.MinRows, fb.MaxRows, fb.MaxCols, fb.SmallDomain = 1024, 1300, 3, true
+			fb.MinRows, fb.MaxRows, fb.MaxCols, fb.SmallDomain = 1024, 2600, 3, true
 		}
 		fb.SmallDomain = rapid.IntRange(0, 5).Draw(t, "smalldomain") != 0
 		fs := gen.DrawFrame(t, fb)
@@ -338,4 +339,64 @@ func exactFrame(fr *obs.Frame) string {
 		sb.WriteByte('\n')
 	}
 	return sb.String()
+}
+
+// FreshCopy rebuilds a frame member from what can be observed of it, with
+// qframe.New: same columns, types and cells in the same order, but storage
+// that nothing else has ever touched. The sequential specification of an
+// operation is a function of the observable value of its operands, so the
+// operation must return the same (canonical) result on the copy. Members that
+// cannot be rebuilt faithfully from observations are returned as they are:
+// groupers, views, frames in error state, and frames with enum columns (the
+// rank order of an enum's values is not observable, and ordering comparisons
+// and Sort depend on it).
+func (m *Member) FreshCopy() (*Member, bool) {
+	if m == nil || m.Kind != KFrame || m.F.Err != nil {
+		return m, false
+	}
+	fr, ok := m.Snap.(*obs.Frame)
+	if !ok || fr.HasErr || fr.Bad != "" || len(fr.Names) == 0 {
+		return m, false
+	}
+	data := map[string]interface{}{}
+	for i, name := range fr.Names {
+		switch fr.Types[i] {
+		case "int":
+			v, err := m.F.IntView(name)
+			if err != nil {
+				return m, false
+			}
+			data[name] = v.Slice()
+		case "float":
+			v, err := m.F.FloatView(name)
+			if err != nil {
+				return m, false
+			}
+			data[name] = v.Slice()
+		case "bool":
+			v, err := m.F.BoolView(name)
+			if err != nil {
+				return m, false
+			}
+			data[name] = v.Slice()
+		case "string":
+			v, err := m.F.StringView(name)
+			if err != nil {
+				return m, false
+			}
+			data[name] = v.Slice()
+		default:
+			return m, false
+		}
+	}
+	f := qframe.New(data, newqf.ColumnOrder(fr.Names...))
+	if f.Err != nil {
+		return m, false
+	}
+	c := &Member{ID: m.ID, Kind: KFrame, F: f, Origin: "fresh copy of " + m.Origin, Owner: m.Owner}
+	c.snapshot()
+	if c.Dig != m.Dig {
+		return m, false // the copy does not observe like the original: do not use it
+	}
+	return c, true
 }
